@@ -344,6 +344,20 @@ def _times(ctx, fi, alts):
         if v[0] != "nt":
             bad = "classifier does not return a record"
             break
+        # branches taken only for an empty side list (a crash leftover, outside
+        # C15's quantifier) are not constrained
+        empty = False
+        for c in pc:
+            t = c[0]
+            if t[0] == "call" and t[1] == "sorted" and c[1] is False:
+                empty = True
+            if t[0] == "cmp" and t[2][0] == "call" and t[2][1] == "len" and \
+                    t[1] == "==" and t[3] == ("const", 0) and c[1] is True:
+                empty = True
+            if t[0] == "comp" and c[1] is False:
+                empty = True
+        if empty:
+            continue
         d = dict(v[2])
         st = d.get("started")
         blur = None
